@@ -535,6 +535,92 @@ def _same(a, b):
         return a is b
 
 
+# ---- a value with a unit through the class's own read_parameters (which may read a parameter more than once) -------------------------------
+CLASS_UNIT_TYPES = ('TemperatureUnit', 'TimeUnit', 'LengthUnit', 'PressureUnit')
+
+
+def run_class_reader(unit):
+    """'<v> <unit>' given to the real read_parameters of the class (not to ReadParameter directly): what the object holds afterwards is the
+    quantity written, converted to the unit the freshly constructed object holds the parameter in - whatever the class does with its parameters on the way (a second pass over the same
+    entries, a super() call, a special case)."""
+    modn, clsn = unit['module'], unit['cls']
+    obj0, model0, mod = c07._make(modn, clsn)
+    per_type = 1 if unit['tier'] == 'quick' else 3
+    seen = {}
+    # the unit each parameter is held in by a freshly constructed object (taken now: c07._make re-uses and restores ONE object, and probing a
+    # unit below leaves the parameter's CurrentUnits at the probed unit)
+    held_in = {k: str(p_.CurrentUnits.value) for k, p_ in obj0.ParameterDict.items() if hasattr(p_, 'CurrentUnits') and hasattr(p_.CurrentUnits, 'value')}
+    for pname, p0 in obj0.ParameterDict.items():
+        if not isinstance(p0, P.floatParameter):
+            continue
+        tname = type(p0.PreferredUnits).__name__
+        if tname not in CLASS_UNIT_TYPES or seen.get(tname, 0) >= per_type or p0.Name.strip() in c07.KNOWN_NORMALISED:
+            continue      # (Reservoir Depth / Impedance: the class deliberately holds them in another unit than the preferred one - C07 lists them)
+        us_ = [u for u in c07.convertible_units(p0) if c07._probe_unit(modn, clsn, pname, u)[0]]
+        if not us_:
+            continue
+        u = us_[0]
+        seen[tname] = seen.get(tname, 0) + 1
+        name = p0.Name.strip()
+        lo, hi = float(p0.Min), float(p0.Max)
+        cu0 = held_in[pname]
+        cfg = {'harness': 'class-reader-units', 'class': clsn, 'param': pname, 'unit': u}
+        log = harness.UnitLog(cfg)
+
+        def read(tok, symbolic, name=name):
+            obj, model, _ = c07._make(modn, clsn)
+            entry = P.ParameterEntry(Name=name, sValue=tok, raw_entry=f'{name}, {tok}')
+            call = c07.reader_call('module', obj, model, mod, pname, entry)
+            call.inputs = {name: entry}
+            exc = None
+            try:
+                with contextlib.redirect_stdout(io.StringIO()), shim.shadow(*(c07.param_shadows() if symbolic else [])):
+                    call()
+            except (ValueError, RuntimeError) as e:
+                exc = e
+            return obj.ParameterDict[pname], exc
+
+        def fn(u=u, cu0=cu0):
+            v = sym('v')
+            prm, exc = read(f'{v!s} {u}', True)
+            return v, prm, exc
+        zv = {'v': z3.Real('v')}
+
+        def concrete(inp, u=u, cu0=cu0, lo=lo, hi=hi):
+            v = float(inp['v'])
+            prm, exc = read(f'{v!r} {u}', False)
+            want = float(pint_convert(v, u, cu0))
+            d = {'text': f'{v!r} {u}', 'the quantity written, in the working unit': want, 'held afterwards': repr(prm.value)[:60], 'raised': repr(exc)[:120] if exc else None}
+            if exc is not None:
+                return (lo <= want <= hi), d          # only a quantity outside the documented range may be refused
+            return (lo <= want <= hi) and abs(float(prm.value) - want) > 1e-9 * (abs(want) + 1), d
+        try:
+            for pr in core.explore(fn, max_paths=200, catch=(Exception,)):
+                log.path(pr)
+                if pr.aborted:
+                    continue
+                if pr.error is not None:
+                    if isinstance(pr.error, (core.Realize, core.HarnessError, TypeError, AttributeError)):
+                        log['inconclusive'].append({'obligation': f'{clsn}/{pname}/{u}', 'why': f'post-read code of the class is not encodable here: {type(pr.error).__name__}'})
+                        break
+                    raise pr.error
+                v, prm, exc = pr.value
+                c = pr.ctx
+                harness.reachable(log, c, 1500)
+                want = core.lift(pint_convert(v, u, cu0))
+                inr = z3.And(want >= core.rv(lo), want <= core.rv(hi))
+                if exc is not None:
+                    harness.discharge(log, c, f'{name} written in {u}, read by {clsn}.read_parameters: only a quantity outside the documented range is refused',
+                                      z3.Not(z3.And(want > core.rv(lo), want < core.rv(hi))), zv, concrete)
+                    continue
+                got = core.lift(prm.value)
+                harness.discharge(log, c, f'{name} written in {u}, read by {clsn}.read_parameters: the object holds the quantity written (exact conversion to the working unit)',
+                                  z3.Implies(inr, approx(got, want)) if got is not None else False, zv, concrete, sample=True)
+        except core.Realize:
+            log['inconclusive'].append({'obligation': f'{clsn}/{pname}/{u}', 'why': 'post-read code realises the value'})
+        yield log.result()
+
+
 def units(tier, seed):
     us = [{'harness': 'directive-path'}]
     srcs = list(gx.SOURCE_CLASSES) + [('hip_ra_x.hip_ra_x', 'HIP_RA_X')]
@@ -546,6 +632,9 @@ def units(tier, seed):
         us.append({'harness': 'inputs', 'module': modn, 'cls': clsn})
     for modn, clsn in [s for s in srcs if s[1] in ('TDPReservoir', 'WellBores', 'SurfacePlantSubcriticalOrc', 'SurfacePlant', 'Economics', 'SurfacePlantDistrictHeating')]:
         us.append({'harness': 'outputs', 'module': modn, 'cls': clsn})
+    for modn, clsn in srcs:
+        if clsn != 'HIP_RA_X':
+            us.append({'harness': 'class-reader', 'module': modn, 'cls': clsn})
     return us
 
 
@@ -554,6 +643,8 @@ def run_unit(unit):
         yield from run_directive_path(unit)
     elif unit['harness'] == 'inputs':
         yield from run_inputs(unit)
+    elif unit['harness'] == 'class-reader':
+        yield from run_class_reader(unit)
     else:
         yield from run_outputs(unit)
 
